@@ -24,8 +24,8 @@ def _start_monitor():
 
         def cb(code, off):
             fn = code.co_filename
-            if fn.startswith("/repo/amoco/"):
-                _funcs.add("%s:%s" % (fn[len("/repo/"):-3].replace("/", "."), code.co_qualname))
+            if fn.startswith(bootstrap.REPO + "/amoco/"):
+                _funcs.add("%s:%s" % (fn[len(bootstrap.REPO) + 1:-3].replace("/", "."), code.co_qualname))
             return mon.DISABLE
 
         mon.register_callback(4, mon.events.PY_START, cb)
@@ -105,6 +105,7 @@ def main(argv=None):
     tier = a.tier if a.tier in ("quick", "thorough") else "quick"
     seed = int(os.environ.get("VERIF_SEED", "0") or 0)
     modname = "vf.props.%s" % pid.lower()
+    global bootstrap
     from vf import bootstrap  # noqa
     mod = importlib.import_module(modname)
 
@@ -246,7 +247,7 @@ def main(argv=None):
         "wall_s": round(wall, 2),
         "violations": len(new),
     }
-    if not a.no_evidence and not a.only:
+    if not a.no_evidence and not a.only and bootstrap.REPO == "/repo":
         os.makedirs(os.path.join(ROOT, "evidence"), exist_ok=True)
         json.dump(ev, open(os.path.join(ROOT, "evidence", "%s.json" % pid), "w"), indent=1)
     brief = {k: v for k, v in cov.items() if isinstance(v, (int, float, bool))}
